@@ -10,6 +10,7 @@ import (
 	"net/http"
 	"path"
 	"strconv"
+	"strings"
 	"sync"
 	"time"
 
@@ -405,10 +406,21 @@ func handleStream(svr interface{}, serviceName string, desc *grpc.StreamDesc, st
 			}
 			statProto := st.Proto()
 			tr.Code = statProto.Code
-			tr.Message = statProto.Message
+			// the message travels in a proto string field, which must be valid
+			// UTF-8 (gRPC itself replaces invalid bytes the same way)
+			tr.Message = strings.ToValidUTF8(statProto.Message, "\uFFFD")
 			tr.Details = statProto.Details
 		}
 
+		if _, err := codec.Marshal(&tr); err != nil {
+			// The trailer cannot be encoded (e.g. trailer metadata that is not
+			// valid UTF-8). Never end the stream without a trailer: report the
+			// problem instead.
+			tr = HttpTrailer{
+				Code:    int32(codes.Internal),
+				Message: strings.ToValidUTF8(fmt.Sprintf("failed to encode trailer: %v", err), "\uFFFD"),
+			}
+		}
 		writeProtoMessage(w, codec, &tr, true)
 	}
 }
